@@ -521,7 +521,8 @@ def check_visit(ctx: Ctx, st: State, n: int, c, o, coq=True):
     for how, got in (("visitor", o["tv"]), ("operands", o["td"])):
         if got != want:
             i = next(k for k in range(len(want)) if got[k:k + 1] != want[k])
-            # classification only: what one gets when a replacement under NOT is dropped (NOT of the ORIGINAL leaf)
+            # classification only: what one gets when a replacement under NOT is dropped (NOT of the ORIGINAL leaf) --
+            # the defect repaired by /repo 33efa74; its own signature, so that a regression is named
             subt = {a: ftable(g, n) for a, g in sub.items()}
             idx = {tuple(v): k for k, v in enumerate(asg(n))}
 
@@ -658,16 +659,6 @@ def run_corpus(ctx: Ctx, st: State):
     ctx.hist("cases", "corpus", k)
 
 
-def load_known_d(ctx):
-    """known_findings.json is assembled from known_findings.d by the integrator; until then read our own entries"""
-    p = VERIF / "known_findings.d" / "C15.json"
-    if p.exists():
-        have = {k["id"] for k in ctx.known}
-        for k in json.loads(p.read_text()):
-            if k.get("property") == "C15" and k["id"] not in have:
-                ctx.known.append(k)
-
-
 def regen_all(ctx: Ctx):
     gen_ok = ctx.regen("predicate", tr.translate)
     gen_nf_ok = ctx.regen("normalform", tr_nf.translate)
@@ -682,7 +673,6 @@ def check_targets(gen_ok, gen_nf_ok, gen_pv_ok):
 
 
 def run(ctx: Ctx):
-    load_known_d(ctx)
     ctx.assumptions += [
         "object identity (`a is b` in Predicate._impl_and) is modelled as a boolean supplied by the environment; theorems "
         "assume only that identical objects are equal, the correspondence run observes the real flags",
@@ -759,7 +749,6 @@ def search(ctx: Ctx):
 
 def replay(ctx: Ctx, rep: dict):
     """re-run exactly the recorded case on the implementation (oracle) and on the models (correspondence)"""
-    load_known_d(ctx)
     st = State()
     pred, nf, visit = Batch(), Batch(), Batch()
     if rep.get("system") == "pred" and "f" in rep:
